@@ -26,7 +26,7 @@ PROP = Property(
         "five-state async machine, the database and asynchronous signature registration and are not decided",
         "repositories (SQLite), the multi-signer, the certificate verifier and the epoch service are callee contracts over uninterpreted functions of their content; in particular WHICH certificate the repository returns as "
         "'master certificate of an epoch' (first of its epoch, else first of the preceding epoch) is decided by SQL and not covered",
-        "the certificate verifier's acceptance is C03's contract; the multi-signer's are C01 / C16 (with known finding F-C16-1)",
+        "the certificate verifier's acceptance is C03's contract; the multi-signer's are C01 / C16 (finding F-C16-1 repaired)",
         "extraction rewrites (complete list in the template): async/.await removed; StdResult<T> -> Result<T, StdError>; debug!/info!/warn!/trace! statements and with_context(..) removed; error constructors -> StdError {}; "
         "RwLock read guard -> reference; turbofish ::<Certificate> removed; From conversions between the three open-message record types -> contract fns preserving flags, epoch, protocol message; the signer filter "
         "(clone/into_iter/filter/collect) and PROTOCOL_VERSION.to_string() -> contract fns; `get_latest_certificates::<Certificate>(1)?.first()` -> one contract call; strip_cfg future_snark",
